@@ -659,6 +659,10 @@ func sigIsCatch(sig *types.Signature) bool {
 	if !ok || !types.Identical(ch.Elem(), types.Universe.Lookup("error").Type()) {
 		return false
 	}
+	if ir.IsBoolEnum(sig.Results().At(0).Type()) {
+		// the verdict re-represented as a two-valued enum (abort / resume): read as false / true
+		return true
+	}
 	b, ok := sig.Results().At(0).Type().Underlying().(*types.Basic)
 	return ok && b.Kind() == types.Bool
 }
